@@ -10,6 +10,19 @@ fn vecf(dim: usize, seed: u32) -> Vec<f32> {
     (0..dim).map(|i| (((i as u32).wrapping_mul(2654435761).wrapping_add(seed.wrapping_mul(40503)) % 2001) as f32) / 1000.0 - 1.0 + 0.001).collect()
 }
 
+/// vecf, L2-normalised when the metric needs unit vectors (the cosine index refuses anything else
+/// up front, which would keep every batch away from the construction paths)
+fn vecm(metric: DistanceMetric, dim: usize, seed: u32) -> Vec<f32> {
+    let mut v = vecf(dim, seed);
+    if matches!(metric, DistanceMetric::Cosine | DistanceMetric::InnerProduct) {
+        let n = v.iter().map(|x| x * x).sum::<f32>().sqrt();
+        if n > 0.0 {
+            v.iter_mut().for_each(|x| *x /= n);
+        }
+    }
+    v
+}
+
 #[derive(Clone, Copy, Debug)]
 enum Op {
     Add,
@@ -117,13 +130,13 @@ fn main() {
                             batch_shapes += 1;
                             let Ok(mut idx) = HnswVectorIndex::new_with_params(dim, 8, metric, m, (m * 2).max(16), true) else { continue };
                             if pre {
-                                let _ = idx.add_vector(100, &vecf(dim, 3));
+                                let _ = idx.add_vector(100, &vecm(metric, dim, 3));
                             }
                             let rows: Vec<Vec<f32>> = pat
                                 .iter()
                                 .enumerate()
                                 .map(|(j, &l)| {
-                                    let mut v = vecf(l, 10 + j as u32);
+                                    let mut v = vecm(metric, l, 10 + j as u32);
                                     if nan_row && j == 0 && !v.is_empty() {
                                         v[0] = f32::NAN;
                                     }
@@ -134,10 +147,62 @@ fn main() {
                             let _ = idx.parallel_insert_batch(&batch);
                             idx.complete_sequential_inserts();
                             calls += 1;
-                            let _ = idx.knn_search(&vecf(dim, 9), 3);
-                            let _ = idx.knn_search_with_ef(&vecf(dim, 7), 10_000, Some(10_000));
-                            let _ = idx.add_vector(50, &vecf(dim, 4));
-                            let _ = idx.knn_search(&vecf(dim, 5), 2);
+                            let _ = idx.knn_search(&vecm(metric, dim, 9), 3);
+                            let _ = idx.knn_search_with_ef(&vecm(metric, dim, 7), 10_000, Some(10_000));
+                            let _ = idx.add_vector(50, &vecm(metric, dim, 4));
+                            let _ = idx.knn_search(&vecm(metric, dim, 5), 2);
+                        }
+                    }
+                }
+            }
+        }
+    }
+    // ... and batches at / above the index's SEQUENTIAL_BATCH_THRESHOLD (100 rows: the parallel
+    // construction path): one malformed row (short, long, empty, NaN) at the head, in the middle or
+    // at the tail of 100 / 131 rows, on an empty and on a non-empty index, then searches and a
+    // further insert. A row that slips past the pre-scan reaches the distance kernels from
+    // several threads at once.
+    let mut big_batches = 0u64;
+    for &dim in &dims {
+        for metric in [DistanceMetric::Euclidean, DistanceMetric::Cosine] {
+            for &rows_n in &[100usize, 131] {
+                for pre in [false, true] {
+                    for bad_at in [None, Some(0usize), Some(rows_n / 2), Some(rows_n - 1)] {
+                        for bad_kind in 0..4u8 {
+                            if bad_at.is_none() && bad_kind != 0 {
+                                continue;
+                            }
+                            big_batches += 1;
+                            let Ok(mut idx) = HnswVectorIndex::new_with_params(dim, rows_n + 8, metric, 16, 64, true) else { continue };
+                            if pre {
+                                let _ = idx.add_vector(100_000, &vecm(metric, dim, 3));
+                            }
+                            let rows: Vec<Vec<f32>> = (0..rows_n)
+                                .map(|j| {
+                                    if Some(j) == bad_at {
+                                        match bad_kind {
+                                            0 => vecm(metric, dim.saturating_sub(1), 10 + j as u32),
+                                            1 => vecm(metric, dim + 1, 10 + j as u32),
+                                            2 => Vec::new(),
+                                            _ => {
+                                                let mut v = vecm(metric, dim, 10 + j as u32);
+                                                v[0] = f32::NAN;
+                                                v
+                                            }
+                                        }
+                                    } else {
+                                        vecm(metric, dim, 10 + j as u32)
+                                    }
+                                })
+                                .collect();
+                            let batch: Vec<(&[f32], usize)> = rows.iter().enumerate().map(|(j, r)| (r.as_slice(), j)).collect();
+                            let _ = idx.parallel_insert_batch(&batch);
+                            idx.complete_sequential_inserts();
+                            calls += 1;
+                            let _ = idx.knn_search(&vecm(metric, dim, 9), 3);
+                            let _ = idx.knn_search_with_ef(&vecm(metric, dim, 7), 10_000, Some(10_000));
+                            let _ = idx.add_vector(50_000, &vecm(metric, dim, 4));
+                            let _ = idx.knn_search(&vecm(metric, dim, 5), 2);
                         }
                     }
                 }
@@ -233,7 +298,7 @@ fn main() {
             }
         }
     }
-    println!("{{\"configs\":{configs},\"sequences\":{sequences},\"calls\":{calls},\"depth\":{depth},\"backend_runs\":{backend_runs},\"batch_shapes\":{batch_shapes},\"cancel_points\":{cancel_points_total},\"cancelled_searches\":{cancel_runs},\"repeat_after_cancel_differs\":{}}}", serde_json_lite(&cancel_diffs));
+    println!("{{\"configs\":{configs},\"sequences\":{sequences},\"calls\":{calls},\"depth\":{depth},\"backend_runs\":{backend_runs},\"batch_shapes\":{batch_shapes},\"threshold_batches\":{big_batches},\"cancel_points\":{cancel_points_total},\"cancelled_searches\":{cancel_runs},\"repeat_after_cancel_differs\":{}}}", serde_json_lite(&cancel_diffs));
     if !cancel_diffs.is_empty() && cancel_only {
         // C16's determinism clause (bin/check C16 runs this binary with MEMBOUND_ONLY=cancel)
         eprintln!("REPEAT-AFTER-CANCEL-DIFFERS: {}", cancel_diffs[0]);
